@@ -138,6 +138,11 @@ def fold_init_basic(repo, strand, cigar):
     return me, rev_comp
 
 
+def me_arg(fn):
+    """Name of the first parameter after `self`."""
+    return fn.args.args[1].arg
+
+
 def r3(repo, res):
     f = repo.func("gene::Gene._init_basic")
     gi = repo.func("gene::Gene.__getitem__")
@@ -196,6 +201,18 @@ def r3(repo, res):
             return
         res.ob("C08.R3", gi, gi, okg, expected="gene[i] / gene[i:j] read the lookup sequence at genome positions, N outside", found=f"{vals} / {sl}",
                key=f"getitem:{strand}:{cigar}")
+        # membership: a genome position is "in" the gene exactly if it has a RefSeq counterpart
+        gc = repo.func("gene::Gene.__contains__")
+        res.analysed(gc)
+        try:
+            wrong = [c_ for c_ in range(lo - 2, hi + 2)
+                     if bool(Evaluator({"self": me, me_arg(gc): c_}).run(fn_body(gc))[1]) != (c_ in me.chr_to_ref)]
+        except (Unfoldable, Raised) as e:
+            res.err("C08.R3", f"Gene.__contains__ outside folding language: {e}")
+            return
+        res.ob("C08.R3", gc, gc, not wrong, expected="`position in gene` holds exactly for the genome positions that have a RefSeq counterpart",
+               found="agrees" if not wrong else f"differs at genome positions {wrong[:5]}", clause="the genome/RefSeq position maps are mutually inverse",
+               key=f"contains:{strand}:{cigar}")
     res.count("C08.R3:mappings folded", n)
 
 
@@ -765,6 +782,10 @@ MUTANTS = [
                 ("                if self.strand < 0:\n                    if \">\" in op:\n                        l, r = op.split(\">\")\n                        op = f\"{rev_comp(l)}>{rev_comp(r)}\"\n                        pos = pos + len(l) - 1",
                  "                key_ = (pos, op)\n                if key_ in self._conv_cache:\n                    pos, op = self._conv_cache[key_]\n                elif self.strand < 0:\n                    if \">\" in op:\n                        l, r = op.split(\">\")\n                        op = f\"{rev_comp(l)}>{rev_comp(r)}\"\n                        pos = pos + len(l) - 1"),
                 ("                pos -= 1  # Cast to 0-based index", "                self._conv_cache[key_] = (pos, op)\n                pos -= 1  # Cast to 0-based index")]),
+    dict(name="R3 membership inverted", module="gene", expect="C08.R3",
+         old="        return i in self.chr_to_ref", new="        return i not in self.chr_to_ref"),
+    dict(name="R3 membership by the lookup range (unmapped positions inside it are members)", module="gene", expect="C08.R3",
+         old="        return i in self.chr_to_ref", new="        return self._lookup_range[0] <= i < self._lookup_range[1]"),
     dict(name="R2 lookup sequence not complemented", module="gene", expect="C08.R3",
          old="                rev_comp(self.seq[self.chr_to_ref[i]])\n                if self.strand < 0", new="                self.seq[self.chr_to_ref[i]]\n                if self.strand < 0"),
     dict(name="R3 lookup sliced from RefSeq on the forward strand (seeded C08_3 shape)", module="gene", expect="C08.R3",
